@@ -773,18 +773,15 @@ class Rinex212NavParser(ChainParser):
         # navigation epoch (time of clock (toc))
         # TODO: It is only a workaround. This should be done before generating a TimeObject!!!! Use 28.02.2016 as check.
         # TODO: Is it necessary for toe? Or is toe always refered to current GPS week?
+        # The seconds are counted from the start of the GPS week of the navigation epoch (also when the given week
+        # is the following or preceding one) and then moved by whole weeks to the instant closest to the epoch, for
+        # each record on its own.
+        toc = self.data["time"].gps_ws
         for field in ["toe", "transmission_time"]:
-            # gpssec = self.data[field].gpssec.copy()
-            gpssec = self.data[field].gps_ws.seconds
-            # time_diff = self.data["time"].gpssec - gpssec
-            time_diff = self.data["time"].gps_ws.seconds - gpssec
-            if np.any(time_diff > 302_400):
-                idx = time_diff > 302_400
-                gpssec[idx] += 604_800
-            elif np.any(time_diff < -302_400):
-                idx = time_diff < -302_400
-                gpssec[idx] -= 604_800
-            self.data[field] = Time(val=self.data["gnss_week"], val2=gpssec, scale="gps", fmt="gps_ws")
+            field_ws = self.data[field].gps_ws
+            gpssec = field_ws.seconds + (field_ws.week - toc.week) * 604_800
+            gpssec = gpssec - np.round((gpssec - toc.seconds) / 604_800) * 604_800
+            self.data[field] = Time(val=toc.week, val2=gpssec, scale="gps", fmt="gps_ws")
 
     #
     # WRITE DATA
